@@ -88,6 +88,11 @@ func descN(v ssa.Value, depth int) string {
 	case *ssa.UnOp:
 		switch x.Op {
 		case token.MUL:
+			if descResolveCells {
+				if rv := reachingStore(x); rv != nil {
+					return descN(rv, d)
+				}
+			}
 			return descN(x.X, d)
 		case token.ARROW:
 			return "<-" + descN(x.X, d)
@@ -331,6 +336,91 @@ func allocSource(a *ssa.Alloc) ssa.Value {
 	}
 	return nil
 }
+
+// reachingStore: for a load of a local cell (a local variable that lives in memory because a
+// closure captures it), the value of the one store that reaches the load: the latest store
+// that dominates it, provided every other store to the cell comes before that one and nothing
+// else can write the cell (no closure stores to it, its address is not passed on).  nil when
+// there is no such store.
+func reachingStore(load *ssa.UnOp) ssa.Value {
+	a, ok := load.X.(*ssa.Alloc)
+	if !ok || load.Op != token.MUL || a.Referrers() == nil {
+		return nil
+	}
+	var stores []*ssa.Store
+	for _, ref := range *a.Referrers() {
+		switch x := ref.(type) {
+		case *ssa.Store:
+			if x.Addr != a {
+				return nil // the address itself is stored somewhere
+			}
+			stores = append(stores, x)
+		case *ssa.UnOp:
+		case *ssa.MakeClosure:
+			fn, ok := x.Fn.(*ssa.Function)
+			if !ok {
+				return nil
+			}
+			for i, b := range x.Bindings {
+				if b != a || i >= len(fn.FreeVars) {
+					continue
+				}
+				fv := fn.FreeVars[i]
+				if fv.Referrers() == nil {
+					continue
+				}
+				for _, r2 := range *fv.Referrers() {
+					if st, ok := r2.(*ssa.Store); ok && st.Addr == fv {
+						return nil
+					}
+					if _, ok := r2.(*ssa.UnOp); !ok {
+						return nil
+					}
+				}
+			}
+		case *ssa.DebugRef:
+		default:
+			return nil
+		}
+	}
+	var last *ssa.Store
+	for _, s := range stores {
+		if !InstrDominates(s, load) {
+			continue
+		}
+		if last == nil || InstrDominates(last, s) {
+			last = s
+		}
+	}
+	if last == nil {
+		return nil
+	}
+	var reach [][]bool
+	for _, s := range stores {
+		if s == last || InstrDominates(s, last) {
+			continue
+		}
+		// a store that can never run before the load (it lies after it, outside any loop
+		// that leads back) does not matter
+		if reach == nil {
+			reach = blockReach(load.Parent())
+		}
+		if CanPrecede(reach, s, load) {
+			return nil
+		}
+	}
+	return last.Val
+}
+
+// DescCell is Desc, except that a load of a captured local is described by the value that
+// reaches it (see reachingStore).
+func DescCell(v ssa.Value) string {
+	descResolveCells = true
+	defer func() { descResolveCells = false }()
+	return Desc(v)
+}
+
+var descResolveCells bool
 
 // leafResult: the result of a call to a tiny private straight-line helper of the module (one
 // block, no calls into the module, no goroutines or channel operations) reads as the expression
